@@ -214,28 +214,73 @@ fn run(case: &C17Case) -> Result<String, Fail> {
                 keys: vec![],
                 detail: format!("generate_testcases fails: {e:#}"),
             })?;
-            // a generated .md document is read with the Markdown format defaults (file_parser.rs)
-            let parser = MarkdownParser::new(maker(), &["scrut"], None);
-            let (_, tests) = parser.parse(&text).map_err(|e| Fail {
-                clause: "parse-error",
-                keys: vec![],
-                detail: format!("generated document {text:?} is rejected by the Markdown parser: {e:#}"),
-            })?;
-            if tests.len() != 1 {
-                return Err(Fail {
-                    clause: "test-count",
-                    keys: vec![],
-                    detail: format!("generated document {text:?} has {} tests instead of 1", tests.len()),
-                });
-            }
-            let keys = match TcCfg::from_real(&tests[0].config) {
-                None => vec!["unrepresentable".to_string()],
-                Some(got) => {
-                    let (g, w) = (effective(&got), effective(&original));
-                    TC_KEYS.iter().filter(|k| !g.key_eq(&w, k)).map(|k| k.to_string()).collect()
-                }
+            // a generated .md document is read with the Markdown format defaults, or with the Cram
+            // defaults as base under `--cram-compat` (file_parser.rs)
+            let md_default = TcCfg {
+                output_stream: Some("stdout".into()),
+                skip_document_code: Some(80),
+                ..Default::default()
             };
-            differs(keys, &text, format!("{:?} (effective values compared)", tests[0].config), format!("{:?}", original.to_real()))?;
+            let cram_default = TcCfg {
+                output_stream: Some("combined".into()),
+                keep_crlf: Some(true),
+                skip_document_code: Some(80),
+                ..Default::default()
+            };
+            for cram_base in [false, true] {
+                let (clause_parse, clause_count, clause_differs) = if cram_base {
+                    ("parse-error-under-cram-base", "test-count-under-cram-base", "differs-under-cram-base")
+                } else {
+                    ("parse-error", "test-count", "differs")
+                };
+                let parser = MarkdownParser::new(maker(), &["scrut"], if cram_base { Some(cram_default.to_real()) } else { None });
+                let (_, tests) = parser.parse(&text).map_err(|e| Fail {
+                    clause: clause_parse,
+                    keys: vec![],
+                    detail: format!("generated document {text:?} is rejected by the Markdown parser: {e:#}"),
+                })?;
+                if tests.len() != 1 {
+                    return Err(Fail {
+                        clause: clause_count,
+                        keys: vec![],
+                        detail: format!("generated document {text:?} has {} tests instead of 1", tests.len()),
+                    });
+                }
+                let keys: Vec<String> = match TcCfg::from_real(&tests[0].config) {
+                    None => vec!["unrepresentable".to_string()],
+                    Some(got) => {
+                        if !cram_base {
+                            let (g, w) = (effective(&got), effective(&original));
+                            TC_KEYS.iter().filter(|k| !g.key_eq(&w, k)).map(|k| k.to_string()).collect()
+                        } else {
+                            // the writer may leave out what equals the Markdown default (the reader's
+                            // other base then gives it another meaning: inherent); everything that is
+                            // written down differently from the Markdown default must keep its
+                            // effective value under the Cram base as well
+                            let g = effective(&model_tc(&[&got, &cram_default]));
+                            let w = effective(&model_tc(&[&original, &cram_default]));
+                            TC_KEYS
+                                .iter()
+                                .filter(|k| !original.key_eq(&md_default, k))
+                                .filter(|k| !g.key_eq(&w, k))
+                                .map(|k| k.to_string())
+                                .collect()
+                        }
+                    }
+                };
+                if !keys.is_empty() {
+                    return Err(Fail {
+                        clause: clause_differs,
+                        detail: format!(
+                            "generated document {text:?} read with the {} base gives {:?}; original {:?}; differing effective keys {keys:?}",
+                            if cram_base { "Cram (--cram-compat)" } else { "Markdown" },
+                            tests[0].config,
+                            original.to_real()
+                        ),
+                        keys,
+                    });
+                }
+            }
             Ok(text)
         }
         _ => Ok(String::new()),
@@ -331,6 +376,13 @@ const FEATURES: &[(&str, &str)] = &[
     ("trail-newline", "a\n"),
     ("lead-newline", "\na"),
     ("empty-line", "a\n\nb"),
+    ("nel", "a\u{85}b"),
+    ("line-separator", "a \u{2028} b"),
+    ("paragraph-separator", "a \u{2029} b"),
+    ("bom", "a\u{feff}b"),
+    ("del", "a\u{7f}b"),
+    ("c1-control", "a\u{9b}b"),
+    ("noncharacter", "a\u{ffff}b"),
 ];
 
 /// coarse class of a feature: what a correct renderer has to do about it. Signatures carry the class
@@ -339,13 +391,16 @@ fn class_of(feature: &str) -> &'static str {
     match feature {
         "dquote" | "backslash" | "backslash-escape" => "dquote-unsafe",
         "non-ascii" => "non-ascii",
+        "nel" | "line-separator" | "paragraph-separator" => "unicode-line-break",
+        "del" | "c1-control" | "noncharacter" => "yaml-non-printable",
+        "bom" => "bom",
         "multi-line" | "line-dashes" | "line-dots" | "line-lead-blank" | "first-line-lead-blank" | "trail-newline" | "lead-newline" | "empty-line" => "multi-line",
         "squote" | "colon" | "hash" | "inner-space" | "dollar" | "equals" => "plain-safe",
         _ => "plain-unsafe",
     }
 }
 
-const CLASS_ORDER: [&str; 5] = ["multi-line", "dquote-unsafe", "plain-unsafe", "non-ascii", "plain-safe"];
+const CLASS_ORDER: [&str; 8] = ["unicode-line-break", "yaml-non-printable", "bom", "multi-line", "dquote-unsafe", "plain-unsafe", "non-ascii", "plain-safe"];
 
 fn probe_of(feature: &str) -> &'static str {
     FEATURES.iter().find(|(f, _)| *f == feature).map(|(_, p)| *p).unwrap_or("a")
@@ -416,6 +471,13 @@ fn features(s: &str) -> Vec<&'static str> {
     );
     add("dollar", s.contains('$'));
     add("equals", s.contains('='));
+    add("nel", s.contains('\u{85}'));
+    add("line-separator", s.contains('\u{2028}'));
+    add("paragraph-separator", s.contains('\u{2029}'));
+    add("bom", s.contains('\u{feff}'));
+    add("del", s.contains('\u{7f}'));
+    add("c1-control", s.chars().any(|c| matches!(c, '\u{80}'..='\u{84}' | '\u{86}'..='\u{9f}')));
+    add("noncharacter", s.contains('\u{ffff}') || s.contains('\u{fffe}'));
     if s.contains('\n') {
         let lines: Vec<&str> = s.split('\n').collect();
         let inner = &lines[..lines.len() - if s.ends_with('\n') { 1 } else { 0 }];
@@ -679,6 +741,19 @@ const ML_LINES: &[&str] = &[
     "back\\slash", "\u{fc}ber", "trailing blank ", "{not: flow}", "```", "```scrut", "$ echo", "%YAML 1.2",
 ];
 
+const ODD_CHARS: &[char] = &['\u{85}', '\u{2028}', '\u{2029}', '\u{feff}', '\u{7f}', '\u{80}', '\u{9b}', '\u{9f}', '\u{ffff}', '\u{fffe}'];
+
+/// now and then a character that YAML readers treat as a line break or refuse unless escaped
+fn with_odd(s: String, rng: &mut Rng) -> String {
+    if !rng.chance(1, 12) {
+        return s;
+    }
+    let mut chars: Vec<char> = s.chars().collect();
+    let at = rng.below(chars.len() + 1);
+    chars.insert(at, *rng.pick(ODD_CHARS));
+    chars.into_iter().collect()
+}
+
 /// a value of two to four lines, with or without a final line break
 pub fn gen_multiline(rng: &mut Rng) -> String {
     let n = 2 + rng.below(3);
@@ -748,13 +823,13 @@ pub fn gen_tc(rng: &mut Rng) -> TcCfg {
     if mask & 64 != 0 {
         t.wait = Some(WaitCfg {
             timeout_ms: gen_duration_ms(rng, false),
-            path: if rng.bool() { Some(gen_string(rng)) } else { None },
+            path: if rng.bool() { Some(with_odd(gen_string(rng), rng)) } else { None },
         });
     }
     if mask & 128 != 0 {
         for _ in 0..1 + rng.below(3) {
             let name = gen_name(rng);
-            let value = if rng.chance(1, 5) { gen_multiline(rng) } else { gen_string(rng) };
+            let value = if rng.chance(1, 5) { gen_multiline(rng) } else { with_odd(gen_string(rng), rng) };
             t.environment.insert(name, value);
         }
     }
@@ -878,6 +953,13 @@ impl Monitor for C17 {
             ("generator:from-cram".into(), tier.pick(500, 30_000)),
             ("generator:from-markdown".into(), tier.pick(500, 30_000)),
             ("str:multi-line".into(), tier.pick(1_000, 60_000)),
+            ("str:nel".into(), tier.pick(50, 3_000)),
+            ("str:line-separator".into(), tier.pick(50, 3_000)),
+            ("str:paragraph-separator".into(), tier.pick(50, 3_000)),
+            ("str:bom".into(), tier.pick(50, 3_000)),
+            ("str:del".into(), tier.pick(50, 3_000)),
+            ("str:c1-control".into(), tier.pick(150, 9_000)),
+            ("str:noncharacter".into(), tier.pick(100, 6_000)),
             ("str:line-dashes".into(), tier.pick(400, 24_000)),
             ("str:line-dots".into(), tier.pick(120, 7_200)),
             ("str:line-lead-blank".into(), tier.pick(250, 15_000)),
@@ -892,8 +974,8 @@ impl Monitor for C17 {
             ("duration:sub-second".into(), tier.pick(300, 18_000)),
         ];
         p.assumptions = vec![
-            "strings contain no control characters (Cc) and no U+2028/U+2029/U+FEFF, except line feeds in environment values (multi-line values, with lines `---`, `...`, leading blanks, with and without final line feed); variable names are shell identifiers".into(),
-            "generator mode: effective values are compared (an unset key = the documented meaning: stdout, CRLF translated, not detached, skip code 80, no ANSI stripping)".into(),
+            "strings contain no control characters (Cc) and no U+2028/U+2029/U+FEFF, except line feeds in environment values (multi-line values, with lines `---`, `...`, leading blanks, with and without final line feed) and U+0085, U+2028, U+2029, U+FEFF, DEL, C1 controls, U+FFFE/U+FFFF in environment values and wait.path; variable names are shell identifiers".into(),
+            "generator mode: the generated document is read with the Markdown base and with the Cram base (--cram-compat); under the Cram base only keys that differ literally from the Markdown default are judged (the writer may omit Markdown defaults); effective values are compared (an unset key = the documented meaning: stdout, CRLF translated, not detached, skip code 80, no ANSI stripping)".into(),
             "DocumentConfig.total_timeout: None and the documented default 900 s are identified (the renderer omits the default)".into(),
             "paths are valid UTF-8".into(),
         ];
@@ -941,7 +1023,10 @@ impl Monitor for C17 {
         // environment values (multi-line values)
         for p in &paths {
             for (role, s) in strings_of(case, p) {
-                if s.chars().any(|c| (c.is_control() && !(c == '\n' && role == "value")) || matches!(c, '\u{2028}' | '\u{2029}' | '\u{feff}')) {
+                // DEL, C1 controls, U+2028/9, U+FEFF, U+FFFE/F: in environment values and wait.path
+                let odd = |c: char| matches!(c, '\u{7f}'..='\u{9f}' | '\u{2028}' | '\u{2029}' | '\u{feff}' | '\u{fffe}' | '\u{ffff}');
+                let odd_ok = role == "value" || (role == "path" && p.ends_with("wait"));
+                if s.chars().any(|c| (odd(c) && !odd_ok) || (c.is_control() && !odd(c) && !(c == '\n' && role == "value"))) {
                     return Checked::out_of_scope("string with control character or line separator");
                 }
             }
